@@ -48,7 +48,8 @@ func init() {
 			"E1: G in {1,2,3,4,16} concurrent POSTs sharing one bridge, bodies from 21 shapes of gated/instant/error/unknown calls, notifications and invalid members, all callers drawing the SAME ids in the same order (alternately: id lists shifted by one per caller, overlapping but different) (13 id sets incl. 1, \"1\", 1.0, 1e0, -0, \"a<b>&\", \"\", 99999999999999999999999), " +
 			"every caller blocked in its gated handlers at once, then every release order of the gates (<=4 gates: all permutations; else identity, reverse, seeded), oracle at every quiescent point (all pairs of shapes for G=2; seeded tuples for G=3,4,16); " +
 			"E2: the G=2 scenarios re-run with one goroutine delayed at each single cli.*/srv.* hook visit (pairs of visits on the two smallest scenarios in thorough); " +
-			"E3: non-POST methods, refused content types and invalid JSON, alone and concurrent with a caller in flight; E4: 16 goroutines posting seeded random bodies with colliding ids in real time under the race detector. " +
+			"E3: non-POST methods, refused content types and invalid JSON, alone and concurrent with a caller in flight; E4: 16 goroutines posting seeded random bodies with colliding ids in real time under the race detector; " +
+			"E5: 1-3 callers blocked in gated calls with string ids while one more caller, whose id texts are the numbers 1..n (the ids the bridge's shared client assigns internally), abandons its HTTP request - the bystanders' handlers must keep running and their answers be their own; handlers failing with the codes -32097 / -32096 are ordinary error responses. " +
 			"distinct_nontrivial = distinct (set of bodies, concurrency, release order, delay set) executions other than a lone POST holding one plain valid call",
 		Assumptions: []string{
 			"Go 1.26.8 standard library, net/http/httptest and testing/synctest (quiescence = all bubble goroutines durably blocked)",
